@@ -492,6 +492,9 @@ pub struct UvState {
     pub yields: usize,
     /// thread runs: spin/yield this many times at the suspension point
     pub spin: u32,
+    /// a capability report that replaces the one given at construction (the user removed the
+    /// biometric, enrolled one, ...), shared by every clone
+    pub capability_now: Option<Option<bool>>,
 }
 
 #[derive(Clone)]
@@ -509,7 +512,7 @@ pub struct RecUv {
 impl RecUv {
     pub fn new(log: Arc<Log>, outcome: UvOutcome, verification_enabled: Option<bool>) -> Self {
         RecUv {
-            state: Arc::new(Mutex::new(UvState { outcome, script: vec![], calls: 0, yields: 0, spin: 0 })),
+            state: Arc::new(Mutex::new(UvState { outcome, script: vec![], calls: 0, yields: 0, spin: 0, capability_now: None })),
             log,
             presence_enabled: true,
             verification_enabled,
@@ -526,6 +529,9 @@ impl RecUv {
     pub fn with_actor(mut self, a: usize) -> Self {
         self.actor = a;
         self
+    }
+    pub fn set_verification_capability(&self, v: Option<bool>) {
+        self.state.lock().unwrap().capability_now = Some(v);
     }
     pub fn set_outcome(&self, o: UvOutcome) {
         self.state.lock().unwrap().outcome = o;
@@ -590,7 +596,7 @@ impl UserValidationMethod for RecUv {
     }
 
     fn is_verification_enabled(&self) -> Option<bool> {
-        self.verification_enabled
+        self.state.lock().unwrap().capability_now.unwrap_or(self.verification_enabled)
     }
 }
 
